@@ -110,11 +110,13 @@ def generate(rseed, tier, idx):
     enum = idx % 2 == 1
     base_settings = _settings(g)
     nfiles = g.randint(1, 3) if enum else g.randint(1, 6)
+    if not enum and g.random() < 0.04:
+        nfiles = g.randint(12, 20)  # a component library: many small stylesheets in one run
     tree = {}
     used = set()
     for k in range(nfiles):
         for _ in range(20):
-            rel = g.choice(_DIRS) + g.choice(_NAMES)
+            rel = g.choice(_DIRS) + (g.choice(_NAMES) if nfiles < 12 else "comp%02d.css" % g.randrange(40))
             if rel not in used and not rel.endswith("_cm.css"):
                 break
         used.add(rel)
